@@ -113,6 +113,25 @@ fn one_tree(t: &Rose, rng: &mut Rng, reqs: &mut Vec<String>, pend: &mut Vec<Pend
                     }
                 }
             }
+            // the drawing of the tree rescaled by a power of two FAR from 1 is the drawing multiplied by that factor, EXACTLY: every
+            // coordinate is a sum of products length x cos/sin, and scaling by a power of two commutes with both (no rounding)
+            for e in [-70i32, -300, 100] {
+                let f = 2f64.powi(e);
+                let mut t2 = tree.clone();
+                t2.rescale(f);
+                rep.count("drawings_at_extreme_magnitudes");
+                match guarded(AssertUnwindSafe(|| radial_layout(&t2))) {
+                    Ok(Ok(l2)) => {
+                        let same = l2.branches.len() == l.branches.len()
+                            && l2.branches.iter().zip(l.branches.iter()).all(|(b2, b)| b2.xstart == b.xstart * f && b2.ystart == b.ystart * f && b2.xend == b.xend * f && b2.yend == b.yend * f)
+                            && l2.nodes.iter().zip(l.nodes.iter()).all(|(n2, n)| n2.x == n.x * f && n2.y == n.y * f);
+                        if !same {
+                            rep.oracle("rescale", "drawing-of-rescaled-tree-is-not-the-rescaled-drawing", &format!("{case}\nar.rescale by 2^{e}\nlay"), "");
+                        }
+                    }
+                    other => rep.oracle("layout", "refused-after-rescale", &format!("{case}\nar.rescale by 2^{e}\nlay"), &format!("{:?}", other.map(|x| x.map(|_| ())))),
+                }
+            }
             // rescale multiplies every coordinate
             let before: Vec<(f64, f64, f64, f64)> = l.branches.iter().map(|b| (b.xstart, b.ystart, b.xend, b.yend)).collect();
             let pts: Vec<(f64, f64)> = l.nodes.iter().map(|n| (n.x, n.y)).collect();
